@@ -117,7 +117,7 @@ CLAIMED = {
                   "product (circular convolution on the N-grid) equals the alias-free product on the retained band and vanishes outside it (index argument, any dimension); hence each built-in "
                   "term (4 convection forms, gradient norm, polynomial<=3, general nonlinear, 2D vorticity, 3D projected + Leray, Cahn-Hilliard, Gray-Scott) equals the documented operator applied to "
                   "the band-truncated state; the convolution theorem from a primitive root (every D). The terms of all 13 nonlinear-function classes are re-translated from the source on every run (harness/translate/nonlin.py, "
-                  "fail-closed, closed over the package) and proved equal to the term models; the models are also run (extracted, exact Gaussian rationals, sparse band convolutions) against "
+                  "fail-closed, closed over the package) and proved equal to the term models, the cutoff of the dealiasing mask is re-translated as well (harness/translate/dealias.py) and proved equal to the model cutoff; the models are also run (extracted, exact Gaussian rationals, sparse band convolutions) against "
                   "every exponax nonlinear function on random states with content up to Nyquist.",
              note="The retained band is read from the implementation's mask (floor of frac*(N//2)-1 in double precision, which can be one below the rational cutoff); the theorems need only K <= K(N), "
                   "which the check verifies for N up to 260. The whole chain is proved in every dimension D: for the D-fold iterate of the 1-D transform (the rfftn/irfftn contract) the convolution theorem, the identification of the full-grid circular convolution of band-masked spectra with the model's band sum (stored index <-> signed wavenumber), hence fft(ifft U * ifft V) restricted to the band = prod2 U V, and prod2 = the alias-free documented product for 3K < N. Polynomial degree > 3 not modelled. Independent NumPy fine-grid oracle as witness.",
